@@ -64,18 +64,32 @@ def r1_1(ctx):
     ctx.note("Table.__rich_console__/_render: options.update(width=table_width / column width) is the output of the numeric column solver - undecided, not checked")
     # implicit renders: `yield self.renderable` passes the same options (Console.render recursion)
     cr = ctx.repo.fn("console:Console.render")
-    src = norm(cr.node)
-    ok = "yield from self.render(render_output, _options)" in src and "renderable.__rich_console__(self, _options)" in src and "_options = options or self.options" in src
-    ctx.check(ok, cr.fq, "recursion passes _options", cr.where, "renderables yielded by a renderable are rendered with the same options", "Console.render does not pass the same options down to yielded renderables")
+    # structural: the options object given to renderable.__rich_console__ is the one every recursive self.render receives,
+    # and it is `options or self.options` (the caller's budget when one was passed)
+    rc_calls = [c for c in walk_local(cr.node) if isinstance(c, ast.Call) and isinstance(c.func, ast.Attribute) and c.func.attr == "__rich_console__" and len(c.args) == 2]
+    rec_calls = [c for c in walk_local(cr.node) if isinstance(c, ast.Call) and norm(c.func) == "self.render"]
+    opt_names = {norm(c.args[1]) for c in rc_calls} | {norm(c.args[1]) if len(c.args) >= 2 else "<missing>" for c in rec_calls}
+    ok = bool(rc_calls) and bool(rec_calls) and len(opt_names) == 1 and all(isinstance(c.args[1], ast.Name) for c in rc_calls)
+    if ok:
+        oname = next(iter(opt_names))
+        defs = [x.value for x in walk_local(cr.node) if isinstance(x, ast.Assign) and len(x.targets) == 1 and norm(x.targets[0]) == oname]
+        ok = len(defs) == 1 and (norm(defs[0]) in ("options or self.options", "self.options if options is None else options", "options if options is not None else self.options", "options if options else self.options"))
+    ctx.check(ok, cr.fq, "recursion passes the caller's options", cr.where, "renderables yielded by a renderable are rendered with the same options (options or self.options)", "Console.render does not pass the same options (the caller's, else the console's) to __rich_console__ and to every recursive render of yielded renderables")
     ok = False
+    oname = next(iter(opt_names)) if len(opt_names) == 1 else "_options"
     for x in walk_local(cr.node):
-        if isinstance(x, ast.If) and norm(x.test) == "_options.max_width < 1" and any(isinstance(b, ast.Return) for b in x.body):
+        if isinstance(x, ast.If) and norm(x.test) in (f"{oname}.max_width < 1", f"{oname}.max_width <= 0", f"1 > {oname}.max_width", f"not {oname}.max_width > 0") and any(isinstance(b, ast.Return) for b in x.body):
             ok = True
     ctx.check(ok, cr.fq, "if _options.max_width < 1: return", cr.where, "nothing is rendered below one cell", "Console.render no longer refuses widths < 1")
     # ConsoleOptions.update(width=) sets both min and max
     up = ctx.repo.fn("console:ConsoleOptions.update")
-    ctx.check("options.min_width = options.max_width = width" in norm(up.node), up.fq, "update(width=)", up.where, "update(width=w) sets max_width = w", "ConsoleOptions.update(width=w) no longer sets max_width to w")
-
+    ok = False
+    for x in walk_local(up.node):
+        if isinstance(x, ast.If) and norm(x.test) in ("width is not None", "width != None"):
+            for st in x.body:
+                if isinstance(st, ast.Assign) and norm(st.value) == "width" and any(isinstance(t, ast.Attribute) and t.attr == "max_width" for t in st.targets):
+                    ok = True
+    ctx.check(ok, up.fq, "update(width=)", up.where, "update(width=w) sets max_width = w", "ConsoleOptions.update(width=w) no longer sets max_width to w")
 
 def r1_2(ctx):
     ctx.rule("R1.2", "crop to what was handed down: Console.render_lines crops/pads every line to max_width of the very options object it renders the child with")
